@@ -157,3 +157,23 @@ func (g *GoBackNConn) VerifStopPongTicker() {
 func (g *GoBackNConn) VerifTickers() (any, any) {
 	return g.pingTicker, g.pongTicker
 }
+
+// VerifSyncer gives the harness a stand-alone syncer (the resend-sync wait of
+// the send queue) so that it can be driven through scripted orders of resend,
+// wait, ACK and NACK events.
+type VerifSyncer struct {
+	s    *syncer
+	quit chan struct{}
+}
+
+// NewVerifSyncer creates a stand-alone syncer for sequence space s.
+func NewVerifSyncer(s uint8, opts ...TimeoutOptions) *VerifSyncer {
+	quit := make(chan struct{})
+	return &VerifSyncer{s: newSyncer(s, nil, NewTimeOutManager(nil, opts...), quit), quit: quit}
+}
+
+func (v *VerifSyncer) InitResendUpTo(top uint8) { v.s.initResendUpTo(top) }
+func (v *VerifSyncer) WaitForSync()             { v.s.waitForSync() }
+func (v *VerifSyncer) ProcessACK(seq uint8)     { v.s.processACK(seq) }
+func (v *VerifSyncer) ProcessNACK(seq uint8)    { v.s.processNACK(seq) }
+func (v *VerifSyncer) Quit()                    { close(v.quit) }
